@@ -683,9 +683,43 @@ class RewriteRuleSet:
         # We call remove_unused_nodes at end of rewriting if there is any rule that does
         # NOT remove nodes (immediately when it is applied)
         self.remove_unused_nodes = any(not rule.remove_nodes for rule in rules)
+        # Names in use anywhere in the model being rewritten (computed on demand).
+        self._used_value_names: set[str | None] | None = None
+        self._value_name_counter = 0
 
     def __repr__(self) -> str:
         return f"{self.__class__.__name__}({self.rules})"
+
+    def _name_new_values(self, model: ir.Model, nodes: Sequence[ir.Node]) -> None:
+        """Give the unnamed outputs of replacement nodes names that are unique in the whole model.
+
+        Names assigned per graph on insertion can coincide between a subgraph and a graph enclosing
+        it; NameFixPass does not repair that when the outer definition comes later in the node list,
+        and the model is then not in SSA form.
+        """
+        if self._used_value_names is None:
+            used: set[str | None] = set()
+            for graph_like in (model.graph, *model.functions.values()):
+                used.update(v.name for v in graph_like.inputs)
+                if isinstance(graph_like, ir.Graph):
+                    used.update(graph_like.initializers)
+                for node in ir.traversal.RecursiveGraphIterator(graph_like):
+                    used.update(v.name for v in node.outputs)
+                    for attr in node.attributes.values():
+                        if attr.type == ir.AttributeType.GRAPH:
+                            used.update(v.name for v in attr.value.inputs)
+                            used.update(attr.value.initializers)
+            self._used_value_names = used
+        for node in nodes:
+            for value in node.outputs:
+                if value.name is None:
+                    while True:
+                        self._value_name_counter += 1
+                        name = f"rewritten_val_{self._value_name_counter}"
+                        if name not in self._used_value_names:
+                            break
+                    self._used_value_names.add(name)
+                    value.name = name
 
     def _apply_to_graph_or_function(
         self,
@@ -747,6 +781,7 @@ class RewriteRuleSet:
                 # is sufficient for patterns with a single output-node "node", which can serve as the
                 # insertion-point.
                 onnxscript.optimizer.basic_constant_propagation(delta.new_nodes)
+                self._name_new_values(model, delta.new_nodes)
                 if rule.as_function:
                     # Create a function out of a copy of the matched nodes
                     if len(delta.new_nodes) != 1:
@@ -863,6 +898,7 @@ class RewriteRuleSet:
             The number of applications of rewrite rules.
         """
         assert isinstance(model, ir.Model)
+        self._used_value_names = None
         onnxscript.optimizer.basic_constant_propagation(model.graph)
         # Rewriting may introduce new functions. In the following loop,
         # we restrict rewriting to original functions, not newly introduced ones.
